@@ -21,7 +21,7 @@ for d in sorted(glob.glob(os.path.join(V, "seeded", "*"))):
     meta = {"property": a.get("property", name.split("-")[0]), "summary": a.get("summary", ""), "needs": a.get("needs", ""),
             "files": a.get("files", []),
             "confirmed": "tools/confirm_seed.sh: demo.py exits 0 on a clean worktree of /repo HEAD and non-zero with patch.diff applied; the listed test files "
-                         "give identical results with and without the patch (the seeder additionally ran: %s)" % a.get("tests_run", "")[:600],
+                         "give identical results with and without the patch (the seeder additionally ran: %s)" % str(a.get("tests_run", ""))[:600],
             "checks_run": {c: {"exit": r["exit"], "tier": "quick", "violations": [l for l in r["lines"] if l.startswith("VIOLATION")][:3]} for c, r in res.items()},
             "caught_by": caught, "not_caught_by": missed}
     json.dump(meta, open(os.path.join(d, "meta.json"), "w"), indent=1)
